@@ -1602,7 +1602,9 @@ impl Element {
     /// element.sort();
     /// ```
     pub fn sort(&self) {
-        self.0.write().sort();
+        // the specification order of sub elements can depend on the version of the file(s) that contain the element
+        let version = self.min_version().unwrap_or(AutosarVersion::LATEST);
+        self.0.write().sort(version);
     }
 
     /// Serialize the element and all of its content to a string
